@@ -7,9 +7,9 @@
 // sqlite mirror (mysql.CountGroups / SelectValidGroups), on the node's LevelDB.
 // Crash points use hook H2 (db.VerifWriteHook aborts the (k+1)-th physical write).
 //
-//   mode=corr   (default) write ops=<file> obs=<file>; the Lean driver answers the same ops
-//   mode=search direct property oracle on the implementation, prints "VIOL {json}" lines
-//   mode=replay ops given in file=<path>, print op => answer (for replay files)
+//	mode=corr   (default) write ops=<file> obs=<file>; the Lean driver answers the same ops
+//	mode=search direct property oracle on the implementation, prints "VIOL {json}" lines
+//	mode=replay ops given in file=<path>, print op => answer (for replay files)
 package main
 
 import (
@@ -24,6 +24,7 @@ import (
 	"sort"
 	"strconv"
 	"strings"
+	"sync"
 	"sync/atomic"
 	"time"
 
@@ -38,7 +39,32 @@ import (
 
 // ---------------------------------------------------------------- consensus helper stub
 
-type helper struct{ genesis []*types.GenesisInfo }
+type helper struct {
+	genesis []*types.GenesisInfo
+	gate    *gate // when set, CheckGroup is a two-party barrier (concurrent AddGroup scenario)
+}
+
+// gate releases two goroutines together (or each alone after 50 ms, so that a call that
+// never reaches CheckGroup cannot block the other).
+type gate struct {
+	mu sync.Mutex
+	n  int
+	ch chan struct{}
+}
+
+func newGate() *gate { return &gate{ch: make(chan struct{})} }
+func (g *gate) wait() {
+	g.mu.Lock()
+	g.n++
+	if g.n == 2 {
+		close(g.ch)
+	}
+	g.mu.Unlock()
+	select {
+	case <-g.ch:
+	case <-time.After(50 * time.Millisecond):
+	}
+}
 
 func (h *helper) GenerateGenesisInfo() []*types.GenesisInfo {
 	// initGroupChain saves &genesis.Group and mutates GroupHeight: hand out fresh copies
@@ -51,10 +77,10 @@ func (h *helper) GenerateGenesisInfo() []*types.GenesisInfo {
 	}
 	return out
 }
-func (h *helper) VRFProve2Value(prove *big.Int) *big.Int     { return new(big.Int) }
-func (h *helper) ProposalBonus() *big.Int                    { return new(big.Int) }
-func (h *helper) PackBonus() *big.Int                        { return new(big.Int) }
-func (h *helper) VerifyHash(b *types.Block) common.Hash      { return common.Hash{} }
+func (h *helper) VRFProve2Value(prove *big.Int) *big.Int             { return new(big.Int) }
+func (h *helper) ProposalBonus() *big.Int                            { return new(big.Int) }
+func (h *helper) PackBonus() *big.Int                                { return new(big.Int) }
+func (h *helper) VerifyHash(b *types.Block) common.Hash              { return common.Hash{} }
 func (h *helper) CheckProveRoot(bh *types.BlockHeader) (bool, error) { return true, nil }
 func (h *helper) VerifyNewBlock(bh *types.BlockHeader, preBH *types.BlockHeader) (bool, error) {
 	return true, nil
@@ -63,7 +89,12 @@ func (h *helper) VerifyBlockHeader(bh *types.BlockHeader) (bool, error) { return
 func (h *helper) VerifyGroupSign(groupPubkey []byte, blockHash common.Hash, sign []byte) (bool, error) {
 	return true, nil
 }
-func (h *helper) CheckGroup(g *types.Group) (bool, error) { return true, nil }
+func (h *helper) CheckGroup(g *types.Group) (bool, error) {
+	if gt := h.gate; gt != nil {
+		gt.wait()
+	}
+	return true, nil
+}
 func (h *helper) VerifyMemberInfo(bh *types.BlockHeader, preBH *types.BlockHeader) (bool, error) {
 	return true, nil
 }
@@ -85,6 +116,8 @@ type node struct {
 	nBoot    int
 	inits    int
 	nExec    int
+	pending  []string // results of the two concurrent AddGroup calls, in the order they are reported as cadd lines
+	nConc    int
 	nRestart int
 }
 
@@ -286,6 +319,31 @@ func (n *node) mutate(ws []string) (string, bool) {
 	return "", false
 }
 
+// conc runs AddGroup(g1) and AddGroup(g2) in two goroutines that are released together inside
+// CheckGroup (the last thing AddGroup does before it takes the chain lock). It returns the two
+// results and the order in which the calls are to be explained sequentially: the accepted one first.
+func (n *node) conc(g1, g2 *types.Group) (r1, r2 string, firstIs1 bool) {
+	gc := core.GetGroupChain()
+	n.everIds[string(g1.Id)] = g1.Id
+	n.everIds[string(g2.Id)] = g2.Id
+	n.h.gate = newGate()
+	var wg sync.WaitGroup
+	wg.Add(2)
+	go func() { defer wg.Done(); r1 = guard(func() string { return addErr(gc.AddGroup(g1)) }) }()
+	go func() { defer wg.Done(); r2 = guard(func() string { return addErr(gc.AddGroup(g2)) }) }()
+	wg.Wait()
+	n.h.gate = nil
+	n.nConc++
+	firstIs1 = !(r2 == "ok" && r1 != "ok")
+	if r1 == "ok" && r2 == "ok" {
+		// both accepted: report in chain order if the chain shows one (no sequential order explains it anyway)
+		if l := gc.LastGroup(); l != nil && string(l.Id) == string(g1.Id) {
+			firstIs1 = false
+		}
+	}
+	return
+}
+
 func listStr(l []string) string {
 	if len(l) == 0 {
 		return "none"
@@ -370,6 +428,23 @@ func (n *node) query(ws []string) (string, bool) {
 			l = append(l, gstr(g))
 		}
 		return listStr(l), true
+	case len(ws) == 2 && ws[0] == "below":
+		x, err := strconv.ParseUint(ws[1], 10, 64)
+		if err != nil {
+			return "", false
+		}
+		if !bootHook {
+			return "unmodelled", true
+		}
+		if _, ok := n.iterIds(); !ok {
+			return "LOOP", true
+		}
+		return gstr(firstBelowImpl(x)), true
+	case len(ws) == 1 && ws[0] == "top":
+		if !bootHook {
+			return "unmodelled", true
+		}
+		return strconv.FormatUint(topHeightImpl(), 10), true
 	case len(ws) == 1 && ws[0] == "dump":
 		var l []string
 		for _, kv := range core.VerifGroupChainDump() {
@@ -423,6 +498,67 @@ func (n *node) exec(line string) string {
 	if len(ws) == 0 {
 		return "bad-op"
 	}
+	if ws[0] == "bootcrash" {
+		// bootcrash <k1> <k2|-> <genesis…>: crash points during the first start-up (hook H4b)
+		if !bootHook {
+			return "unmodelled"
+		}
+		if len(ws) < 4 {
+			return "bad-op"
+		}
+		k1, e1 := strconv.Atoi(ws[1])
+		k2 := -1
+		var e2 error
+		if ws[2] != "-" {
+			k2, e2 = strconv.Atoi(ws[2])
+		}
+		if e1 != nil || e2 != nil || k1 < 0 || (ws[2] != "-" && k2 < 0) {
+			return "bad-op"
+		}
+		var gi []*types.GenesisInfo
+		for _, t := range ws[3:] {
+			p := strings.Split(t, ",")
+			if len(p) != 4 {
+				return "bad-op"
+			}
+			g, ok := parseGroup4(p[0], p[1], p[2], p[3])
+			if !ok {
+				return "bad-op"
+			}
+			gi = append(gi, &types.GenesisInfo{Group: *g})
+		}
+		n.wipe()
+		n.h = &helper{genesis: gi}
+		n.booted, n.alive = true, false
+		n.hist = []string{line}
+		n.nBoot++
+		for _, g := range gi {
+			n.everIds[string(g.Group.Id)] = g.Group.Id
+		}
+		cut := func(k int) string {
+			n.budget, n.aborted = k, false
+			res := guard(func() string {
+				if firstBootImpl(n.h) {
+					return "done"
+				}
+				return "notfirst"
+			})
+			n.budget = -1
+			if res == "ABORT" {
+				return "crashed"
+			}
+			return res
+		}
+		res := cut(k1)
+		if res == "crashed" && k2 >= 0 {
+			d, _ := db.NewDatabase("group")
+			if v, _ := d.Get([]byte("gcurrent")); v == nil {
+				res += " " + cut(k2)
+			}
+		}
+		n.nRestart++
+		return res + " / " + n.start()
+	}
 	if ws[0] == "boot" {
 		var gi []*types.GenesisInfo
 		for _, t := range ws[1:] {
@@ -456,11 +592,66 @@ func (n *node) exec(line string) string {
 		return "unmodelled"
 	}
 	switch ws[0] {
-	case "add", "rmlast", "rmto", "restart", "crash":
+	case "add", "rmlast", "rmto", "restart", "crash", "conc":
 		n.hist = append(n.hist, line)
 	}
 	if !n.alive {
 		return "dead"
+	}
+	if ws[0] == "forkput" && len(ws) == 2 {
+		// what groupChainFork does to its own prefixed store "groupFork": same LevelDB, and the
+		// prefix extends the chain's "group", so the chain sees the raw key "Fork"+key
+		k, err := hx.UnHex(ws[1])
+		if err != nil {
+			return "bad-op"
+		}
+		d, err := db.NewDatabase("groupFork")
+		if err != nil {
+			return "PANIC " + err.Error()
+		}
+		if err := d.Put(k, []byte{1}); err != nil {
+			return "PANIC " + err.Error()
+		}
+		return "ok"
+	}
+	if ws[0] == "conc" && len(ws) == 6 {
+		// conc <id1> <id2> <pre> <parent> <create>: two concurrent AddGroup calls naming the same predecessor
+		g1, ok1 := parseGroup4(ws[1], ws[3], ws[4], ws[5])
+		g2, ok2 := parseGroup4(ws[2], ws[3], ws[4], ws[5])
+		if !ok1 || !ok2 {
+			return "bad-op"
+		}
+		r1, r2, first1 := n.conc(g1, g2)
+		l1 := "cadd " + ws[1] + " " + ws[3] + " " + ws[4] + " " + ws[5]
+		l2 := "cadd " + ws[2] + " " + ws[3] + " " + ws[4] + " " + ws[5]
+		if first1 {
+			n.pending = []string{l1, r1, l2, r2}
+		} else {
+			n.pending = []string{l2, r2, l1, r1}
+		}
+		return r1 + " " + r2 + " " + n.status()
+	}
+	if ws[0] == "cadd" && len(ws) == 5 {
+		// one of the two calls of the preceding conc, reported in the sequential order that explains them
+		rej := func(r string) string {
+			// which rejection the loser gets depends on how far the winner had got (the duplicate-id
+			// check runs before the lock): only accepted / rejected is compared
+			if r == "ok" || strings.HasPrefix(r, "PANIC") {
+				return r
+			}
+			return "rejected"
+		}
+		if len(n.pending) >= 2 && n.pending[0] == line {
+			r := n.pending[1]
+			n.pending = n.pending[2:]
+			return rej(r)
+		}
+		g, ok := parseGroup4(ws[1], ws[2], ws[3], ws[4])
+		if !ok {
+			return "bad-op"
+		}
+		n.everIds[string(g.Id)] = g.Id
+		return rej(guard(func() string { return addErr(core.GetGroupChain().AddGroup(g)) }))
 	}
 	if ws[0] == "restart" && len(ws) == 1 {
 		if preCycle() {
@@ -612,6 +803,32 @@ type gen struct {
 	alive  bool
 	part   int
 	parts  int
+	n      *node
+}
+
+// conc: two concurrent AddGroup calls on top of the current last; the outcome goes to the
+// protocol as two cadd lines in the sequential order that explains it (the model replays them
+// one after the other: a concurrent execution no sequential order explains shows as a diff).
+func (g *gen) conc() {
+	r := g.r
+	g.create++
+	i := r.Intn(len(g.pool))
+	j := (i + 1 + r.Intn(len(g.pool)-1)) % len(g.pool)
+	if r.Chance(1, 4) {
+		j = i // the very same group delivered twice (consensus broadcast and group sync)
+	}
+	parent := g.listed[r.Intn(len(g.listed))]
+	line := fmt.Sprintf("conc %s %s %s %s %d", g.pool[i], g.pool[j], g.last(), parent, g.create)
+	g.n.exec(line)
+	for len(g.n.pending) >= 2 {
+		g.emit(g.n.pending[0])
+	}
+	// which call won is the scheduler's choice; look at the result, then remove the winner again so
+	// that everything after this point is the same op text for a fixed VERIF_SEED
+	g.emit("count")
+	g.emit("iter")
+	g.emit("dump")
+	g.emit("rmlast")
 }
 
 var idPool = []string{"a1", "a2", "b1b2", "c1c2c3", "d4", "e5e6", "f7"}
@@ -650,6 +867,10 @@ func (g *gen) probes() {
 		}
 	}
 	g.emit(fmt.Sprintf("syncat %d %d", g.r.Intn(cnt+1), 1+g.r.Intn(8)))
+	if bootHook {
+		g.emit("top")
+		g.emit(fmt.Sprintf("below %d", g.r.Intn(int(g.create)+2)))
+	}
 	if len(g.listed) > 0 {
 		g.emit("sync " + g.listed[g.r.Intn(len(g.listed))])
 		g.emit("byid " + g.listed[g.r.Intn(len(g.listed))])
@@ -717,8 +938,21 @@ func (g *gen) randomSequence(maxOps int, allowCrash bool) {
 	for i := 0; i < n; i++ {
 		if g.r.Chance(1, 10) {
 			g.emit("restart")
+		} else if g.r.Chance(1, 12) && len(g.listed) > 0 {
+			g.conc()
 		} else {
-			g.emit(g.mutator(allowCrash))
+			op := g.mutator(allowCrash)
+			g.emit(op)
+			if (strings.HasPrefix(op, "rmlast") || strings.HasPrefix(op, "rmto")) && g.r.Chance(1, 3) {
+				// remove -> restart -> query -> add with nothing in between
+				g.emit("restart")
+				g.resync()
+				if g.alive {
+					g.probes()
+					g.create++
+					g.emit(fmt.Sprintf("add %s %s %s %d", g.pool[g.r.Intn(len(g.pool))], g.last(), g.listed[0], g.create))
+				}
+			}
 		}
 		g.resync()
 		if !g.alive {
@@ -727,6 +961,75 @@ func (g *gen) randomSequence(maxOps int, allowCrash bool) {
 			return
 		}
 		g.probes()
+	}
+}
+
+// bootCrashes: every crash prefix of the first start-up with 1 and 2 genesis groups, each also
+// followed by every crash prefix of the start-up after it (double crash), then a well-formed add.
+func (g *gen) bootCrashes() int {
+	if !bootHook {
+		return 0
+	}
+	cnt := 0
+	for ng := 1; ng <= 2; ng++ {
+		toks := "9001,-,9001,0"
+		if ng == 2 {
+			toks += " 9101,9001,9001,1"
+		}
+		for pass := 0; pass < 2; pass++ { // single crashes first (shortest replay), then double crashes
+			for k1 := 0; k1 <= 4*ng; k1++ {
+				for k2 := -1; k2 <= 4*ng; k2++ {
+					if (pass == 0) != (k2 < 0) {
+						continue
+					}
+					s2 := "-"
+					if k2 >= 0 {
+						s2 = strconv.Itoa(k2)
+					}
+					if k2 >= 0 && k1 >= 2 {
+						continue // the store already has a last-group pointer: the next start-up writes nothing
+					}
+					g.emit(fmt.Sprintf("bootcrash %d %s %s", k1, s2, toks))
+					cnt++
+					g.resync()
+					if !g.alive {
+						continue
+					}
+					g.probes()
+					g.emit(fmt.Sprintf("add a1 %s %s 5", g.last(), g.listed[0]))
+					g.resync()
+					if g.alive {
+						g.probes()
+						g.emit("restart")
+						g.emit("count")
+					}
+				}
+			}
+		}
+	}
+	return cnt
+}
+
+// concStress: many rounds of two concurrent AddGroup calls on one chain, shrinking it in between.
+func (g *gen) concStress(rounds int) {
+	g.pool = idPool
+	g.boot(1)
+	for i := 0; i < rounds && g.alive; i++ {
+		g.conc()
+		g.resync()
+		if !g.alive {
+			return
+		}
+		if i%3 == 2 {
+			// grow the chain a little so that later rounds race on a longer list
+			g.create++
+			g.emit(fmt.Sprintf("add %s %s %s %d", g.pool[i%len(g.pool)], g.last(), g.listed[0], g.create))
+			g.resync()
+		}
+		if i%15 == 14 {
+			g.emit("rmto 0")
+			g.resync()
+		}
 	}
 }
 
@@ -820,6 +1123,10 @@ func (g *gen) malformed() {
 		{"boot 9001,-,9001,0 9101,9001,9001,1", "crash 2 rmlast"},
 		{"boot 9001,-,9001,0 9101,9001,9001,1", "crash 3 rmlast"},
 		{"boot 9001,-,9001,0 9101,9001,9001,1 9201,9101,9001,2 9301,9201,9001,3", "crash 5 rmto 0", "crash 6 rmto 0"},
+		// the fork database shares the chain's key space: fork key X is the chain's raw key "Fork"+X
+		{"boot 9001,-,9001,0", "forkput a1", "dump", "byid 466f726ba1", "add 466f726ba1 9001 9001 1", "add a1 9001 9001 2",
+			"forkput " + hk(2), "dump", "byid 466f726b" + hk(2), "add 466f726b" + hk(2) + " a1 9001 3", "forkput 6c6174657374", "restart", "dump",
+			"add 01 a1 9001 4", "forkput 00000001", "byheight 5075401108956905473", "syncat 5075401108956905473 2", "dump", "forkput zz"},
 		// syntactically bad lines (driver and harness must both say bad-op)
 		{"boot 9001,-,9001,0", "add zz 9001 9001 1", "add a1 9001 9001", "byheight x", "rmto -1", "crash x rmlast", "crash 1 count", "frobnicate", "sync zz", "syncat 1"},
 		{"boot 9001,-,9001"},
@@ -853,8 +1160,15 @@ func corpusFiles() []string {
 	if d == "" {
 		return nil
 	}
-	fs, _ := filepath.Glob(filepath.Join(d, "*.ops"))
-	sort.Strings(fs)
+	all, _ := filepath.Glob(filepath.Join(d, "*.ops"))
+	sort.Strings(all)
+	var fs []string
+	for _, f := range all {
+		if strings.Contains(filepath.Base(f), "needs-h4b") && !bootHook {
+			continue // first-boot crash scripts need hook H4b in the tree under test
+		}
+		fs = append(fs, f)
+	}
 	return fs
 }
 
@@ -917,9 +1231,9 @@ func main() {
 	var viols []viol
 	seenKey := map[string]bool{}
 	evals, mutators := 0, 0
-	crashed := false // some op of the current history was actually cut by a crash
+	crashed := false  // some op of the current history was actually cut by a crash
 	inDomain := false // oracle on: the generator running now produces well-formed histories only
-	broken := false // the current history already violated the property: later symptoms derive from it
+	broken := false   // the current history already violated the property: later symptoms derive from it
 	// Watchdog: the real code has unbounded loops on states that break the invariant
 	// (refreshCache on a predecessor cycle, removeFromCommonAncestor after a count underflow).
 	// An op that runs longer than 20 s is reported and the process stops, instead of a 5-minute timeout.
@@ -968,14 +1282,16 @@ func main() {
 			if h := core.GetGroupChain().GetGroupByHeight(0x6763757272656e74); h != nil {
 				seenKey["height-key-gcurrent"] = true
 				viols = append(viols, viol{Key: "height-key-gcurrent",
-					Desc: fmt.Sprintf("Count()=%d but GetGroupByHeight(7449927343006903924)=%s (that height's key is \"gcurrent\")", core.GetGroupChain().Count(), gstr(h)),
+					Desc:    fmt.Sprintf("Count()=%d but GetGroupByHeight(7449927343006903924)=%s (that height's key is \"gcurrent\")", core.GetGroupChain().Count(), gstr(h)),
 					History: []string{op, "byheight 7449927343006903924"}})
 			}
 		}
 		switch f[0] {
 		case "boot":
 			broken, crashed = false, false
-		case "add", "rmlast", "rmto", "restart", "crash":
+		case "bootcrash":
+			broken, crashed = false, strings.HasPrefix(res, "crashed")
+		case "add", "rmlast", "rmto", "restart", "crash", "cadd":
 		default:
 			return res
 		}
@@ -999,7 +1315,15 @@ func main() {
 			return res
 		}
 		broken = true
-		if f[0] == "crash" && strings.HasPrefix(res, "crashed") && len(f) >= 3 {
+		if f[0] == "bootcrash" && strings.HasPrefix(res, "crashed") {
+			// class = after how many writes of a genesis save the (last) cut fell
+			desc = key + ": " + desc
+			key = fmt.Sprintf("crash:firstboot:k%d", (n.writes-w0)%4)
+			if strings.HasPrefix(res, "crashed crashed") {
+				kk, _ := strconv.Atoi(f[2])
+				key = fmt.Sprintf("crash:firstboot:k%d", kk%4)
+			}
+		} else if f[0] == "crash" && strings.HasPrefix(res, "crashed") && len(f) >= 3 {
 			// class = which operation was cut and after how many of its four writes
 			what := "remove"
 			if f[2] == "add" {
@@ -1016,7 +1340,7 @@ func main() {
 		seenKey[key] = true
 		return res
 	}
-	g := &gen{r: r, emit: emit, pool: idPool}
+	g := &gen{r: r, emit: emit, pool: idPool, n: n}
 
 	if mode == "corr" {
 		var err error
@@ -1045,10 +1369,12 @@ func main() {
 		// ids outside the domain of the property (index-key ids, empty ids, unlinked genesis)
 		// are not generated here: the oracle states C19 for well-formed histories only.
 		inDomain = true
+		nEx = g.exhaustive(depth, true) // shortest histories first: they make the replay of a finding
+		g.bootCrashes()
 		for i := 0; i < nSeq; i++ {
 			g.randomSequence(maxOps, i%3 != 0)
 		}
-		nEx = g.exhaustive(depth, true)
+		g.concStress(hx.ArgInt(a, "conc", 40))
 	} else {
 		if part == 0 {
 			for _, f := range corpusFiles() {
@@ -1060,10 +1386,14 @@ func main() {
 			g.malformed()
 		}
 		inDomain = true
+		nEx = g.exhaustive(depth, true)
+		if part == 0 {
+			g.bootCrashes()
+		}
 		for i := 0; i < nSeq; i++ {
 			g.randomSequence(maxOps, i%3 != 0)
 		}
-		nEx = g.exhaustive(depth, true)
+		g.concStress(hx.ArgInt(a, "conc", 40))
 	}
 
 	if mode == "search" {
@@ -1076,7 +1406,7 @@ func main() {
 	}
 	st := out.StatsJSON()
 	vb, _ := json.Marshal(viols)
-	st = strings.TrimSuffix(st, "}") + fmt.Sprintf(",\"oracle_evaluations\":%d,\"viols\":%s,\"corpus_ops\":%d,\"random_sequences\":%d,\"exhaustive_sequences\":%d,\"exhaustive_depth\":%d,\"boots\":%d,\"restarts\":%d,\"physical_writes\":%d}",
-		evals, string(vb), nCorpus, nSeq, nEx, depth, n.nBoot, n.nRestart, n.writes)
+	st = strings.TrimSuffix(st, "}") + fmt.Sprintf(",\"oracle_evaluations\":%d,\"viols\":%s,\"corpus_ops\":%d,\"random_sequences\":%d,\"exhaustive_sequences\":%d,\"exhaustive_depth\":%d,\"concurrent_rounds\":%d,\"boots\":%d,\"restarts\":%d,\"physical_writes\":%d}",
+		evals, string(vb), nCorpus, nSeq, nEx, depth, n.nConc, n.nBoot, n.nRestart, n.writes)
 	fmt.Println("STATS " + st)
 }
